@@ -17,7 +17,7 @@ from gtirb.proto import AuxData_pb2
 
 _IR = gtirb.IR(uuid=UUID(int=9))
 
-ACTIONS = ("leave", "read", "mutate", "assign", "type_same", "type_other", "reload")
+ACTIONS = ("leave", "read", "mutate", "mutate_ref", "assign", "type_same", "type_other", "save", "reload")
 WIDTH = {"sequence<int16_t>": 2, "sequence<int32_t>": 4}
 
 
@@ -58,6 +58,7 @@ def known(v: List[int], w: int) -> bool:
     ad = gtirb.AuxData._from_protobuf(msg, _IR)
     # model
     raw, raw_held, loaded_type, cur_type, cur = msg.data, True, t0, t0, list(v)
+    ref = None          # a reference to the decoded value obtained earlier by the caller
     for a in list(acts) + ["final"]:
         if a == "leave":
             pass
@@ -65,14 +66,23 @@ def known(v: List[int], w: int) -> bool:
             got = ad.data
             if not (isinstance(got, list) and got == cur):
                 return fail("decoded value differs from the stored one")
+            ref = got
             raw_held = False
         elif a == "mutate":
             ad.data.append(w)
             cur = cur + [w]
             raw_held = False
+        elif a == "mutate_ref":
+            # in-place edit through a reference taken earlier, without touching .data again
+            if ref is None:
+                ref = ad.data
+                raw_held = False
+            ref.append(w)
+            cur = cur + [w]
         elif a == "assign":
             ad.data = [w]
             cur = [w]
+            ref = None
             raw_held = False
         elif a == "type_same":
             ad.type_name = cur_type
@@ -92,6 +102,51 @@ def known(v: List[int], w: int) -> bool:
             if a == "reload":
                 ad = gtirb.AuxData._from_protobuf(out, _IR)
                 raw, raw_held, loaded_type = out.data, True, cur_type
+                ref = None
+            elif a == "save" and cur_type != loaded_type:
+                # a save under another type name decodes the table: from now on the value, not the loaded bytes, is authoritative
+                raw_held = False
+    return done()
+
+
+def known_tuple(x: int, w: int) -> bool:
+    """
+    pre: 0 <= x < 256 and _i16(w)
+    post: __return__
+    """
+    # a table whose top-level value is immutable (tuple) but whose components are not: in-place edits of a component must be saved
+    acts = SHARD["acts"]
+    t0 = "tuple<uint8_t,sequence<int16_t>>"
+    msg = AuxData_pb2.AuxData()
+    msg.type_name = t0
+    msg.data = bytes([0]) [:0] + x.to_bytes(1, "little") + _seq_bytes([5], 2)
+    ad = gtirb.AuxData._from_protobuf(msg, _IR)
+    raw, raw_held, cur = msg.data, True, [5]
+    for a in list(acts) + ["final"]:
+        if a == "read":
+            got = ad.data
+            if not (isinstance(got, tuple) and got[0] == x and got[1] == cur):
+                return fail("decoded tuple value")
+            raw_held = False
+        elif a == "mutate":
+            ad.data[1].append(w)
+            cur = cur + [w]
+            raw_held = False
+        elif a == "leave":
+            pass
+        else:
+            out = ad._to_protobuf()
+            if out.type_name != t0:
+                return fail("type name")
+            if raw_held:
+                if out.data != raw:
+                    return fail("untouched tuple table not written back byte for byte")
+            else:
+                if len(out.data) < 1 or out.data[0] != x or not _reads_as(out.data[1:], 2, cur):
+                    return fail("tuple table written is not the encoding of its current value (after %s)" % acts)
+            if a == "reload":
+                ad = gtirb.AuxData._from_protobuf(out, _IR)
+                raw, raw_held = out.data, True
     return done()
 
 
@@ -228,7 +283,7 @@ ASSUMPTIONS = [
 OUTSIDE = "element counts above 2 (+1 appended) for the symbolic table; unknown payloads other than the listed representatives; more than 3 actions per generation"
 BOUNDS = {
     "quick": "known table sequence<int16_t> with <= 2 symbolic elements and a symbolic appended/assigned value x every action sequence of length <= 2 over "
-             "{leave, read, mutate in place, assign data, type_name=same, type_name=other known type, save+reload}; %d unknown / partially unknown / empty / non-canonical / "
+             "{leave, read, mutate in place, mutate through an earlier reference, assign data, type_name=same, type_name=other known type, save, save+reload}; a tuple<uint8_t,sequence<int16_t>> table with in-place edits of its list component; %d unknown / partially unknown / empty / non-canonical / "
              "non-ASCII / variant tables x every sequence of <= 2 over {leave, read, read twice, type_name=same, type_name=unknown, save+reload}; IR and module level tables" % len(TABLES),
     "thorough": "as quick with action sequences of length <= 3",
 }
@@ -243,6 +298,9 @@ def shards(tier):
     for k in range(0, K + 1):
         for acts in itertools.product(ACTIONS, repeat=k):
             out.append({"fn": "known", "consts": {"acts": list(acts)}, "timeout": 600, "twin": "first", "cover": "first"})
+    for k in range(0, K + 1):
+        for acts in itertools.product(("leave", "read", "mutate", "save", "reload"), repeat=k):
+            out.append({"fn": "known_tuple", "consts": {"acts": list(acts)}, "timeout": 600, "twin": "first", "cover": "first"})
     for k in range(1, K + 1):
         out.append({"fn": "other", "consts": {"k": k}, "timeout": 900})
     out.append({"fn": "container_level", "consts": {}, "timeout": 300})
